@@ -671,3 +671,19 @@ Definition t_wmol (m : option (list watom * list (N * N * Z))) : tok :=
 (** one molecule, one setting of (drop_non_aam, use_index_as_atom_map): the graph, and the molecule rebuilt from it *)
 Definition run_molgraph (m : rmol) (drop ui : bool) : tok :=
   let g := mol_to_graph m drop ui in L [t_gr_ord g; t_wmol (graph_to_mol g)].
+
+(** vocabulary of the molecule <-> graph theorem *)
+Fixpoint bond_find (i j : N) (l : list (N * N * Z)) : option Z :=
+  match l with
+  | [] => None
+  | (b, e, o) :: r => if (N.eqb b i && N.eqb e j) || (N.eqb b j && N.eqb e i) then Some o else bond_find i j r
+  end.
+(** an RDKit molecule as the code sees it: bonds join two different existing atoms, one bond per pair *)
+Fixpoint wf_bonds (n : N) (l : list (N * N * Z)) : bool :=
+  match l with
+  | [] => true
+  | (b, e, _) :: r => (b <? n)%N && (e <? n)%N && negb (N.eqb b e)
+                      && match bond_find b e r with None => true | Some _ => false end && wf_bonds n r
+  end.
+Definition wf_mol (m : rmol) : bool := wf_bonds (N.of_nat (List.length (fst m))) (snd m).
+Definition atom_back (a : ratom) : watom := WAt (r_sym a) (r_chg a) (Some (r_map a)) (Some (r_hs a)).
